@@ -311,7 +311,8 @@ def gen_program(rng, family=None):
     names = ["i", "a", "l", "s"]
 
     def val():
-        return rng.randrange(len(VALUES))
+        # 20..22: tracked objects (reference count checked at the end); 10, 11: fresh lists
+        return rng.choice(list(range(len(VALUES))) + [20, 21, 22, 20, 10, 11])
 
     def rnd_attr_op(o="o"):
         n = rng.choice(names)
